@@ -249,7 +249,7 @@ Step(s, r, k) ==
 (*   taint[h]: the approval was registered while the hash was already out   *)
 (*   of balance as an uninvoiced payment (TODO(331) tolerance, which the    *)
 (*   property excludes): clause (a) is not evaluated for it.                *)
-(* mon = "a" | "b" selects the history that is kept (smaller products).     *)
+(* mon = "a" | "b" | "ab" selects the history that is kept.                 *)
 (***************************************************************************)
 InitGhost(ChanSet, HashSet) ==
   [ H |-> [c \in ChanSet |-> <<>>], X |-> [c \in ChanSet |-> NoneC], C |-> [c \in ChanSet |-> <<>>],
@@ -262,8 +262,8 @@ GIn(g, h)  == SumOver([c \in DOMAIN g.H |-> Min(Amt(g.H[c], "r", h), Amt(g.C[c],
 
 \* pre / post: the abstract state read back from the implementation before / after the request
 Ghost(g, r, resp, pre, post, mon) ==
-  LET a == mon = "a"
-      b == mon = "b"
+  LET a == mon \in {"a", "ab"}
+      b == mon \in {"b", "ab"}
       newAppr == [h \in DOMAIN g.appr |->
                     IF post.inv[h].amt = 0 THEN 0
                     ELSE IF pre.inv[h].amt = 0 /\ r.op \in {"AddInvoice", "AddKeysend"} /\ r.h = h
